@@ -703,12 +703,34 @@ func runC09(c *core.Case, st *core.CaseStats, rep func(fn, kind string, in, exp,
 				if dec, err := cryptz.GCMDecrypt(enc, s2, a2); err == nil {
 					rep("GCMDecrypt", "value", in, "error with another "+what, dec)
 				}
+				// the caller's own buffers: decrypt successfully, change the buffer in place, decrypt the same message
+				// again (a flip-and-restore loop over a key buffer is how callers tamper-test)
+				s3, a3 := append([]byte{}, secret...), append([]byte{}, aad...)
+				if dec, err := cryptz.GCMDecrypt(enc, s3, a3); err != nil || !bytes.Equal(dec, plain) {
+					rep("GCMDecrypt", "value", in, plain, fmt.Sprint(dec, err))
+				}
+				if what == "secret" {
+					s3[rng.Intn(len(s3))] ^= 1
+				} else {
+					a3[rng.Intn(len(a3))] ^= 1
+				}
+				if dec, err := cryptz.GCMDecrypt(enc, s3, a3); err == nil {
+					rep("GCMDecrypt", "value", in, "error after the "+what+" buffer was changed in place between two calls", dec)
+				}
 			} else {
 				enc, _ := cryptz.Encrypt(plain, secret)
 				s2 := append([]byte{}, secret...)
 				s2[rng.Intn(len(s2))] ^= 1
 				if dec, err := cryptz.Decrypt(enc, s2); err == nil && bytes.Equal(dec, plain) {
 					rep("Decrypt", "value", in, "not the plaintext under another secret", dec)
+				}
+				s3 := append([]byte{}, secret...)
+				if dec, err := cryptz.Decrypt(enc, s3); err != nil || !bytes.Equal(dec, plain) {
+					rep("Decrypt", "value", in, plain, fmt.Sprint(dec, err))
+				}
+				s3[rng.Intn(len(s3))] ^= 1
+				if dec, err := cryptz.Decrypt(enc, s3); err == nil && bytes.Equal(dec, plain) {
+					rep("Decrypt", "value", in, "not the plaintext after the secret buffer was changed in place between two calls", dec)
 				}
 			}
 		})
